@@ -118,6 +118,18 @@ theorem C23_error_iff_replies (numNodes : Nat) (rs : List NR) (h : 0 < numNodes)
     · exact Or.inl h1
     · exact Or.inr (by omega)
 
+/-- With no member at all (`numNodes = 0`, not reachable: the node itself is a member) the loop never returns
+early, every reply is consumed, and any reply is one too many. -/
+theorem C23_error_iff_zero_members (rs : List NR) :
+    (keyRequestError (streamKeyResp 0 rs)).isSome ↔ (∃ r ∈ rs, failed r = true) ∨ rs ≠ [] := by
+  rw [C23_error_iff]
+  simp [used, List.length_eq_zero_iff]
+
+/-- The hypothesis of `C23_keys_count_nodes` is needed: a single reply listing a key twice counts it twice
+(the code does `resp.Keys[key]++` per listing, not per node). -/
+theorem C23_key_listed_twice_counterexample :
+    cnt (streamKeyResp 1 [⟨"a", .decoded ⟨true, "", ["k", "k"], "k"⟩⟩]).keys "k" = 2 := by decide
+
 /-! ### Tie to the source (regenerated on every run) -/
 
 /-- **The receive loop as it is in the source**: a FRESH `var nodeResponse` per reply, `NumResp++` first
@@ -288,6 +300,12 @@ theorem C23_one_key_fits (size : SizeFn) (limit actual : Nat)
     have := List.find?_eq_none.mp hf _ hmem
     simp [fits] at this
     omega
+
+/-- The hypothesis `25 ≤ limit` of `C23_one_key_fits` is needed: with limit 24 the loop tries only the untruncated
+list (`24/25 = 0` prefixes), so two 10-byte keys that do not fit together yield no reply although one would fit. -/
+theorem C23_small_limit_counterexample :
+    keyListResponse (fun n _ => 4 + 10 * n) 20 2 = .error ∧ (fun (n : Nat) (_ : Notice) => 4 + 10 * n) 1 (some 1) ≤ 20 := by
+  decide
 
 /-- Same, with the code's own assumption about sizes instead of `25 ≤ limit`: every
 key costs at least 25 bytes. -/
